@@ -2283,15 +2283,24 @@ class Ev:
                     env2 = dict(f.env)
                     self.bind(f.params[0], recv.fn(idx), env2)
                     b_ = f.body
+                    scope_ = None
+                    if b_.get("k") == "tyscope":          # a closure made inside an inlined generic function: look through its type scope
+                        scope_, b_ = b_["tymap"], b_["e"]
                     while b_.get("k") == "block" and not b_["stmts"] and "e" in b_:
                         b_ = b_["e"]
                     if b_.get("k") == "mcall" and b_["m"] == "map" and len(b_["args"]) == 1 and b_["args"][0].get("k") == "closure" and \
                             (b_["recv"].get("ty") or "").replace("&", "").startswith("std::option::Option<"):
-                        o_ = self.eval(b_["recv"], env2, depth)
-                        if isinstance(o_, (Sym, Seq)) and not (isinstance(o_, Sym) and o_.tag[:1] == ("ctor",)):
-                            env3 = dict(env2)
-                            self.bind(b_["args"][0]["params"][0], Sym("payload", vkey(o_), 0), env3)
-                            return ("arm", ("Some", "_"), vkey(o_)), self.collapse(self.eval(b_["args"][0]["body"], env3, depth))
+                        if scope_ is not None:
+                            self.tymaps.append(scope_)
+                        try:
+                            o_ = self.eval(b_["recv"], env2, depth)
+                            if isinstance(o_, (Sym, Seq)) and not (isinstance(o_, Sym) and o_.tag[:1] == ("ctor",)):
+                                env3 = dict(env2)
+                                self.bind(b_["args"][0]["params"][0], Sym("payload", vkey(o_), 0), env3)
+                                return ("arm", ("Some", "_"), vkey(o_)), self.collapse(self.eval(b_["args"][0]["body"], env3, depth))
+                        finally:
+                            if scope_ is not None:
+                                self.tymaps.pop()
                     r_ = self.collapse(self.eval(f.body, env2, depth))
                     if isinstance(r_, Alt) and len(r_.alts) == 2:
                         (g1, v1), (g2, v2) = r_.alts
